@@ -257,6 +257,16 @@ def spot_check_huge(ctx, rng):
         if got.tolist() != [2 * c, 2 * c + 1]:
             ctx.violation('map_cycle_to_samples:huge', 'map_cycle_to_samples(cycle %d of %d) returned %d samples, the cycle has 2' % (c, K, len(got)), case)
             return
+    # ... and a recording of more than 2**20 samples in which cycles lie across the multiples of 2**19 / 2**20
+    L = int(rng.integers(29000, 31000))
+    cvl = np.repeat(np.arange(45), L)
+    ctx.count('very_large_structures')
+    for c in sorted(set([(1 << 19) // L, (1 << 20) // L, 44, 0])):
+        got = np.asarray(CS.map_cycle_to_samples(cvl, c)).reshape(-1)
+        if len(got) != L or got[0] != c * L or got[-1] != (c + 1) * L - 1:
+            ctx.violation('map_cycle_to_samples:huge', 'map_cycle_to_samples(cycle %d) on %d samples returned %d samples (%s..%s), the cycle has %d (%d..%d)'
+                          % (c, len(cvl), len(got), got[0] if len(got) else None, got[-1] if len(got) else None, L, c * L, (c + 1) * L - 1), case)
+            return
     nsub, nch = int(sel.sum()), len(chains)
     for s in [int(v) for v in rng.integers(max(nsub - 5000, 0), nsub, 5)] + [nsub - 1]:
         got = np.asarray(CS.map_subset_to_cycle(sv, s)).reshape(-1)
